@@ -1,7 +1,7 @@
 import TypstyleModel.Model.Comment
 /-! `pretty/layout/chain.rs`: `ChainStylist`. -/
 namespace Typstyle
-open Pretty
+open Twin
 
 inductive CItem where
   | body (d : Doc) | op (d : Doc) | comment (d : Doc) | attached (d : Doc) | linebreak
@@ -27,7 +27,7 @@ def CS.childStepM (e : Env) (ctx : Ctx) (opConv : Bool → ANode → M (Bool × 
   | some op => pure ({ cs with items := cs.items ++ [.op op] }, canAttach, true)
   | none =>
     if isCommentKind child.kind then
-      let d ← convComment e child
+      let d ← convCommentT e child
       pure ({ cs with items := cs.items ++ [if canAttach then .attached d else .comment d], hasComment := true }, canAttach, seenOp)
     else if child.kind == .space then
       if hasLinebreak child.text then
@@ -91,6 +91,6 @@ def CS.print (e : Env) (cs : CS) (noBreakSingle spaceAroundOp : Bool) : M Doc :=
   | [] => reject (.panic "chain.rs:214 docs.remove(0)")
   | first :: rest =>
     let follow := concatDocs rest
-    if simple then pure (first ++ follow).grp else pure (first ++ follow.nst e.cfg.tab).grp
+    if simple then pure (first ++ follow).grp else pure (first ++ follow.nstTab).grp
 
 end Typstyle
